@@ -28,6 +28,12 @@ def main():
         try:
             if job.get("replay") is not None:
                 mod.replay(core.uncanon(job["replay"]), ctx)
+            elif desc.get("name") == "__repotests__":
+                # the repository's own tests as an extra workload under this property's contracts
+                from vmon import repotests
+
+                mod.install()
+                repotests.run(ctx, mod.REPO_TEST_MODULES)
             else:
                 mod.run_shard(desc, ctx)
         finally:
